@@ -144,6 +144,9 @@ func (s *ExpressionListRewriter) Exit(node cypher.SyntaxNode) {
 	case *cypher.KindMatcher:
 		if variable, typeOK := typedNode.Reference.(*cypher.Variable); !typeOK {
 			s.SetErrorf("expected a variable as the reference for a kind matcher but received: %T", node)
+		} else if len(typedNode.Kinds) == 0 {
+			// A kind test over no kinds matches nothing; moving it into the pattern would silently turn it into "any kind"
+			s.SetErrorf("kind matcher for %s has no kinds to match", variable.Symbol)
 		} else if variable.Symbol == query.EdgeSymbol {
 			if s.hasNegationAncestor() || s.hasAlternativeAncestor() {
 				return
